@@ -17,6 +17,7 @@ Failing histories are shrunk (steps dropped, source elements dropped).
 """
 import copy
 import itertools
+import os
 import time
 
 import numpy as np
@@ -31,7 +32,9 @@ TRUSTED = ['pyarrow slice/take/concat_arrays, numpy arange/nonzero/basic slicing
            'pd.array dtype inference are given their list meaning in Model/Derive.v (not '
            'modelled operationally); their results are checked on every run through the '
            'exported buffers',
-           'pyarrow buffers() export (harness/common.py export_listarr/export_fixarr)',
+           'pyarrow buffers() of the array obtained through the public __arrow_array__ protocol '
+           '(harness/c16_util.py export); when the protocol or the list / fixed-size-binary layout is '
+           'not there the kernel check of that history is skipped and counted, not reported',
            'derived-vs-fresh comparison of length/area/intersects/hilbert_distance is a '
            'Python-side metamorphic check (those kernels are modelled by their own properties)']
 
@@ -74,12 +77,12 @@ def run_history(kind, subtype, els, steps, rng, quant=True, probes=True):
     src_q = None
     orig = list(range(len(els)))
     obs = []
-    try:
-        rep0 = U.export(kind, arr)
-    except Exception as e:
-        out.py_fail = ('export', f'source export failed {type(e).__name__}: {e}', -1)
-        return out
+    rep0 = U.export(kind, arr)
+    coq_ok = rep0 is not None       # else: python-side checks only (counted, not a violation)
+    page_sizes = set()
     for k, st in enumerate(steps):
+        if st.get('sindex'):
+            page_sizes.add(int(st['sindex']))
         try:
             new = U.apply_step(kind, arr, st, out.notes)
             err = None
@@ -112,18 +115,19 @@ def run_history(kind, subtype, els, steps, rng, quant=True, probes=True):
         except Exception:
             orig2 = None
         arr = new
-        try:
-            rp = U.export(kind, arr)
-        except Exception as e:
-            out.py_fail = ('export', f'export failed after {st}: {type(e).__name__}: {e}', k)
-            break
+        rp = U.export(kind, arr)
+        if rp is None:
+            coq_ok = False
         pr = []
-        if probes and (k == len(steps) - 1 or rng.random() < 0.25):
+        if probes and coq_ok and (k == len(steps) - 1 or rng.random() < 0.25):
             n = len(arr)
             for i in _probe_ints(rng, n):
                 try:
                     sc = arr[i]
-                    pr.append((int(i), C.Rec('Ok', U.elem_term(kind, U.scalar_to_py(kind, sc)))))
+                    py = U.scalar_to_py(kind, arr, sc)
+                    if sc is not None and py is None:
+                        continue                      # no arrow protocol
+                    pr.append((int(i), C.Rec('Ok', U.elem_term(kind, py))))
                 except Exception as e:  # noqa: BLE001
                     if orig2 is not None and -n <= i < n and orig2[i] is not None \
                             and U.is_aei(kind, els[orig2[i]]) and not isinstance(e, IndexError):
@@ -131,7 +135,8 @@ def run_history(kind, subtype, els, steps, rng, quant=True, probes=True):
                         continue
                     t = U.exc_term(e)
                     pr.append((int(i), t if t is not None else C.Rec('TypeError')))
-        obs.append((U.step_term(st), C.Rec('Ok', rp), pr))
+        if coq_ok:
+            obs.append((U.step_term(st), C.Rec('Ok', rp), pr))
         if orig2 is None:
             if out.py_fail is None:
                 out.py_fail = (f'accepted-invalid:{st["op"]}',
@@ -145,11 +150,14 @@ def run_history(kind, subtype, els, steps, rng, quant=True, probes=True):
                            f'modified by the call', k)
         if out.py_fail is None:
             f = python_side(kind, subtype, els, arr, orig, quant, lambda: _src_q(kind, els, subtype),
-                            out, wrap=quant and rng.random() < 0.15)
+                            out, wrap=quant and rng.random() < 0.12, page_sizes=page_sizes,
+                            keys=[U.CX_KEYS[0]] + rng.sample(U.CX_KEYS[1:], 3),
+                            query_own=(k == len(steps) - 1 or rng.random() < 0.3))
             if f is not None:
                 out.py_fail = (f[0], f'{kind} after step {k} {st}: {f[1]}', k)
-    out.case = (U.elems_term(kind, els), rep0, obs)
-    out.expected = [0] * (1 + len(obs))
+    if coq_ok:
+        out.case = (U.elems_term(kind, els), rep0, obs)
+        out.expected = [0] * (1 + len(obs))
     return out
 
 
@@ -165,18 +173,19 @@ def _src_q(kind, els, subtype):
     return _SRC_CACHE[key]
 
 
-def python_side(kind, subtype, els, arr, orig, quant, src_q, out=None, wrap=False):
+def python_side(kind, subtype, els, arr, orig, quant, src_q, out=None, wrap=False,
+                page_sizes=(), query_own=False, keys=None):
     """None when everything agrees, else (signature, what)"""
     want = [None if o is None else els[o] for o in orig]
     aei = any(U.is_aei(kind, e) for e in want)
     if len(arr) != len(want):
         return ('length-differs', f'len {len(arr)} instead of {len(want)}')
     got = U.array_to_py(kind, arr)
-    for i, (a, b) in enumerate(zip(got, want)):
+    for i, (a, b) in enumerate(zip(got if got is not None else [], want)):
         if not U.same_elem(a, b):
             return ('elements-differ', f'element {i} is {a!r}, expected {b!r}')
     try:
-        it = [U.scalar_to_py(kind, x) for x in arr]
+        it = U.scalars_to_py(kind, arr, list(arr))
     except Exception as e:  # noqa: BLE001
         if aei and out is not None:
             out.aei_hit = ('list(arr)', type(e).__name__, str(e)[:120])
@@ -187,8 +196,8 @@ def python_side(kind, subtype, els, arr, orig, quant, src_q, out=None, wrap=Fals
                            or not all(U.same_elem(a, b) for a, b in zip(it, want))):
         return ('iteration-differs', f'list(arr) gives {it!r}, expected {want!r}')
     fresh = G.make_array(kind, want, subtype)
-    f = U.cx_compare(kind, arr, fresh, nkeys=None if quant else 3,
-                     wrappers=wrap)
+    f = U.cx_compare(kind, arr, fresh, page_sizes=page_sizes, nkeys=keys if quant else 2,
+                     wrappers=wrap, query_own=query_own)
     if f is not None:
         return f
     if not quant:
@@ -298,16 +307,20 @@ def fixed_source(kind, n=4):
     return base[:n]
 
 
-def enumerated(tier):
+def enumerated(tier, rng=None):
+    import random as _random
+    rng = rng or _random.Random(0)
     """small scopes, exhaustively: (kind, subtype, elements, steps, quant)"""
     out = []
-    bounds = [None, -5, -4, -2, -1, 0, 1, 3, 4, 5] if tier == 'quick' else \
+    bounds = [None, -5, -4, -2, -1, 0, 1, 3, 4] if tier == 'quick' else \
         [None] + list(range(-6, 7))
     stepsz = [None, 1, -1, 2, -2, 3, -3] if tier == 'quick' else [None, 1, -1, 2, -2, 3, -3, 4, -5, 0]
     kinds = ['multipolygon', 'point'] if tier == 'quick' else G.KINDS
     for kind in kinds:
         els = fixed_source(kind, 4)
         for s, e, k in itertools.product(bounds, bounds, stepsz):
+            if tier == 'quick' and rng.random() >= 0.45:
+                continue            # a seeded 45% sample of the grid in the quick tier
             # on a slice of a concatenation (non-zero offset in the buffers), then once more
             out.append((kind, 'float64', els,
                         [{'op': 'slice', 'args': [1, None, None], 'form': 'plain'},
@@ -334,6 +347,8 @@ def enumerated(tier):
                 ('copy', None, 'series'), ('copy', None, 'df')]
         for ps in (2, 512):
             for op, args, form in fam:
+                if tier == 'quick' and rng.random() >= 0.6:
+                    continue
                 out.append((kind, 'float64', els,
                             [{'op': op, 'args': args, 'form': form, 'sindex': ps},
                              {'op': 'slice', 'args': [-2, None, None], 'form': 'plain', 'sindex': ps}],
@@ -346,6 +361,8 @@ def enumerated(tier):
         for allow_fill in (False, True):
             for ix in [[]] + [[i] for i in rng_ix] + [[i, j] for i in rng_ix for j in rng_ix]:
                 for form in (('list', 'numpy') if len(ix) == 1 else ('numpy',)):
+                    if tier == 'quick' and len(ix) == 2 and rng.random() >= 0.5:
+                        continue        # index pairs: a seeded half in the quick tier
                     out.append((kind, 'float64', els,
                                 [pre, {'op': 'take', 'args': [ix, allow_fill, 'none'], 'form': form}],
                                 len(ix) == 2 and ix[0] == ix[1] - 1))
@@ -425,7 +442,9 @@ def fails(kind, subtype, els, steps, rng, need_coq=True):
         return None
     bad = C.coq_mismatches(IMPORTS, FN, CASE_TY, RES_TY, [out.case], [out.expected])
     if bad:
-        codes = coq_codes([out.case])[0]
+        codes = [0 if c == 3 else c for c in coq_codes([out.case])[0]]
+        if not any(codes):
+            return None
         first = next((c for c in codes if c), 0)
         return (f'{CODES.get(first, "model")}:{kind}', describe(kind, steps, out, codes))
     return None
@@ -487,17 +506,17 @@ def run(rep):
         '(slice, take without fill, take with fill and -1, mask, concat, copy)']
     rep.rule = ('(0) before ~35% of the steps (and every step of the slice grid and of the index '
                 'family) build_sindex(page_size in {2,3,4,16,512}) is called on the array / Series / '
-                'frame the step starts from; after every step cx[...] (7 keys incl. omitted and '
-                'inverted ends; also through GeoSeries / GeoDataFrame on ~15% of the steps) and '
+                'frame the step starts from; after every step cx[...] (4 of 7 keys incl. omitted and '
+                'inverted ends, 2 on the slice grid; also through GeoSeries / GeoDataFrame on ~15% of the steps) and '
                 'sindex.intersects (4 boxes) of the derived array are compared with those of a fresh '
-                'array of the selected elements; (a) enumerated small scopes: every slice start/stop/step over a 10x10x7 grid applied '
+                'array of the selected elements; (a) enumerated small scopes: a seeded 45% sample (thorough tier: all) of the slice start/stop/step 9x9x7 grid applied '
                 'to a slice of a 4-element array and once more; on a length-3 window (offset 2) of a '
-                '6-element array of each of the 7 kinds every take of <= 2 indices in [-4, 3] with and '
+                '6-element array of each of the 7 kinds every take of <= 1 index and (quick: a seeded half of) the takes of 2 indices in [-4, 3] with and '
                 'without allow_fill, every boolean mask in 3 surface forms, wrong lengths, NA masks, '
                 'takes from an empty array, every fill_value class, every rotation followed by a take '
                 'with fill, every integer index in [-5, 4] in 4 forms, non-index arguments; '
-                '(b) seeded random histories of 1..8 steps over 7 kinds x {float64, float32, int32, '
-                'int64, int16}: slice (any start/stop/step, Ellipsis forms, GeoSeries/GeoDataFrame '
+                '(b) seeded random histories of 1..8 steps over 7 kinds x {float64, float32, int32} '
+                '(thorough: + int64, int16): slice (any start/stop/step, Ellipsis forms, GeoSeries/GeoDataFrame '
                 'iloc), take (list/numpy/pandas take/reindex, allow_fill, every fill_value class), '
                 'boolean masks (numpy, list, BooleanArray with NA, Series/DataFrame row selection), '
                 'integer arrays (list, numpy int64/int32/uint8, Int64 with NA, tuple, iloc, loc), '
@@ -505,12 +524,15 @@ def run(rep):
                 'parquet / iteration round trips, arr[i], ~12% invalid requests.  A history is non-trivial when '
                 'at least one step returned a non-empty array; distinct = distinct (kind, subtype, '
                 'elements, steps)')
-    nrand = 1300 if tier == 'quick' else 20000
+    nrand = 1100 if tier == 'quick' else 20000
     hist = []
-    for kind, st, els, steps, quant in enumerated(tier):
+    for kind, st, els, steps, quant in enumerated(tier, rng):
         hist.append((kind, st, els, steps, quant))
     n_enum = len(hist)
-    subtypes = ['float64'] * 5 + ['float32', 'int32', 'int64', 'int16']
+    # every (kernel, subtype) pair is JIT-compiled afresh in each process (~0.2-0.5 s each,
+    # no on-disk cache): three subtypes in the quick tier, all five in the thorough one
+    subtypes = ['float64'] * 6 + ['float32', 'int32'] if tier == 'quick' else \
+        ['float64'] * 5 + ['float32', 'int32', 'int64', 'int16']
     for j in range(nrand):
         kind = G.KINDS[j % 7]
         st = rng.choice(subtypes)
@@ -533,6 +555,7 @@ def run(rep):
     mutated = 0
     aei_first = None
     t_py = time.time()
+    c_py = time.process_time()
     for kind, st, els, steps, quant in hist:
         out = run_history(kind, st, els, steps, rng, quant=quant)
         rep.evaluations += 1
@@ -572,6 +595,7 @@ def run(rep):
 
     # ---- the model, inside Coq
     rep.extra['seconds_library'] = round(time.time() - t_py, 1)
+    rep.extra['cpu_seconds_library'] = round(time.process_time() - c_py, 1)
     t_coq = time.time()
     bad = C.coq_mismatches(IMPORTS, FN, CASE_TY, RES_TY, cases, expected, shard=100)
     rep.extra['seconds_kernel'] = round(time.time() - t_coq, 1)
@@ -582,17 +606,25 @@ def run(rep):
         reported.setdefault(s, (meta, what))
     for i in bad[:40]:
         codes = coq_codes([cases[i]])[0]
-        first = next((c for c in codes if c), -1)
-        pos = next((j for j, c in enumerate(codes) if c), -1)
+        if all(c in (0, 3) for c in codes):
+            # elements agree; only the layout premise of the theorems fails: not observable
+            rep.count('internal:null-slot-spans-values')
+            continue
+        first = next((c for c in codes if c not in (0, 3)), -1)
+        pos = next((j for j, c in enumerate(codes) if c not in (0, 3)), -1)
         sig = f'{CODES.get(first, "model")}:{metas[i]["kind"]}'
         what = (f'{metas[i]["kind"]}: the kernel-evaluated model disagrees at position {pos} '
                 f'(0 = source array, k = after step k): {CODES.get(first, first)}; codes {codes}')
         reported.setdefault(sig, (metas[i], what))
+    for what_, cnt in U.UNAVAILABLE.items():
+        rep.count('internal-unavailable:' + what_, cnt)
+    rep.extra['histories_kernel_checked'] = len(cases)
     for sig, (meta, what) in list(reported.items())[:8]:
         els, steps = meta['elements'], meta['steps']
         try:
             els, steps = shrink(meta['kind'], meta['subtype'], els, steps, rng, sig,
-                                budget_s=40 if tier == 'quick' else 120)
+                                budget_s=float(os.environ.get('C16_SHRINK_BUDGET',
+                                                                 40 if tier == 'quick' else 120)))
             f = fails(meta['kind'], meta['subtype'], els, steps, rng)
             if f:
                 what = f[1] if f[1].startswith(meta['kind']) else f'{meta["kind"]}: {f[1]}'
@@ -632,6 +664,7 @@ def replay(rep, rp):
     if out.case is not None:
         codes = coq_codes([out.case])[0]
         print('kernel verdicts (0 = agree):', codes, {c: CODES.get(c) for c in codes if c})
+        codes = [0 if c == 3 else c for c in codes]
         print('model states:', C.coq_eval(
             IMPORTS, f'model_states {C.coq(out.case[0])} {C.coq([o[0] for o in out.case[2]])}'))
         if any(codes):
